@@ -82,6 +82,7 @@ type Contract struct {
 // must hold immediately before the k-th (source order; every one if k < 0) call to a function
 // whose name ends in Callee.
 type AssertSpec struct {
+	Trust  bool // "trust at": assumed (unchecked) right after the call, with result bound
 	Callee string
 	Ord    int
 	C      *Clause
@@ -123,7 +124,7 @@ type ContractFile struct {
 var headRe = regexp.MustCompile(`^(func|iface|assume|type|spec|uninterpreted|axiom|lemma|sweep)\b\s*(.*)$`)
 var clauseKw = map[string]bool{"assumes": true, "defines": true, "requires": true, "ensures": true, "panics": true, "split": true, "loop": true, "modifies": true,
 	"immutable": true, "invariant": true, "view": true, "ghost": true, "mode": true, "inline": true, "refines": true,
-	"pure": true, "property": true, "nopanic": true, "trusted": true, "safety": true, "havoc": true, "fresh": true, "opt": true, "assert": true, "region": true}
+	"pure": true, "property": true, "nopanic": true, "trusted": true, "safety": true, "havoc": true, "fresh": true, "opt": true, "assert": true, "region": true, "trust": true}
 
 func mustClause(text, where string) *Clause {
 	e, err := ParseExpr(text)
@@ -436,14 +437,15 @@ func ParseContractFile(path, pkgPath string) (cf *ContractFile, err error) {
 			default:
 				panic(fmt.Errorf("%s: bad region clause", where))
 			}
-		case "assert":
-			// assert at callee[#k]: expr
+		case "assert", "trust":
+			// assert at callee[#k]: expr   (checked before the call)
+			// trust at callee[#k]: expr    (assumed after the call; "result" is the call's result; "dynamic" names calls of function values)
 			r := strings.TrimSpace(strings.TrimPrefix(strings.TrimSpace(rest), "at"))
 			k := strings.Index(r, ":")
 			if k < 0 {
 				panic(fmt.Errorf("%s: bad assert clause (assert at callee[#k]: expr)", where))
 			}
-			as := &AssertSpec{Callee: strings.TrimSpace(r[:k]), Ord: -1, C: mustClause(strings.TrimSpace(r[k+1:]), where)}
+			as := &AssertSpec{Trust: kw == "trust", Callee: strings.TrimSpace(r[:k]), Ord: -1, C: mustClause(strings.TrimSpace(r[k+1:]), where)}
 			if h := strings.Index(as.Callee, "#"); h >= 0 {
 				n, err := strconv.Atoi(as.Callee[h+1:])
 				if err != nil {
